@@ -52,6 +52,7 @@ cKeys == {tlc.tla_val(set(p['keys']))}
 cTables == {{{tabs}}}
 cAmts == {tlc.tla_val(set(p['amts']))}
 cWhos == {tlc.tla_val(set(p['whos']))}
+cChannels == {tlc.tla_val(set(p.get('channels', ['bytes'])))}
 ====
 """,
     )
@@ -81,6 +82,8 @@ PROPERTY SaturatedStays
   MaxN = {p['maxn']}
   MaxDepth = {p['maxdepth']}
   Whos <- cWhos
+  Channels <- cChannels
+  MaxReloads = {p.get('maxreloads', 1)}
 INIT Init
 NEXT Next
 VIEW View
@@ -145,6 +148,27 @@ class Ctx:
             return f.remove(o[2], o[3])
         if o[0] == "clear":
             return f.clear()
+        if o[0] == "rt":
+            objs[o[1]] = self.reload(f, o[2])
+            return None
+
+    def reload(self, f, channel):
+        hf = f.hash_function
+        if f.is_on_disk:  # close and reopen the same file
+            path = f._filepath
+            f.close()
+            return self.BFD(path, hash_function=hf)
+        cls = self.CBF if self.counting else self.BF
+        if channel == "hex":
+            return cls(hex_string=f.export_hex(), hash_function=hf)
+        if channel == "file":
+            self.seq += 1
+            path = os.path.join(self.tmp, f"rl{self.seq}.blm")
+            f.export(path)
+            g = cls(filepath=path, hash_function=hf)
+            os.unlink(path)
+            return g
+        return cls.frombytes(bytes(f), hash_function=hf)
 
     def cells(self, f):
         if self.counting:
@@ -218,8 +242,13 @@ class Ctx:
         ret = None
         try:
             ret = self.apply(objs, o)
+            A, B = objs["A"], objs["B"]
+            f = objs[w]
         except Exception as exc:  # noqa
             raised = exc
+        if raised is not None and o[0] == "rt":
+            t.fail("C05", "C05.load_raises", ENGINE, rp(raised=repr(raised)), sig)
+            return
         if raised is not None:
             t.fail("C16" if self.counting else "C01", "C16.returns" if self.counting else "C01.crash", ENGINE, rp(raised=repr(raised)), sig)
             return
@@ -240,6 +269,10 @@ class Ctx:
                 t.check(ob["cells"] == ex["cells"], "C16", "C16.no_half_update", ENGINE, lambda: rp2(who=who), sig)
             if ob["cells"] != ex["cells"] or ob["n"] != ex["n"]:
                 t.add_drift(ENGINE, {"table": table, "history": hist, "op": o, "who": who, "expected": ex, "observed": ob})
+        if o[0] == "rt":
+            ob = obs[w]
+            t.check(ob["est"] == before["est"] and ob["in"] == before["in"], "C05", "C05.queries.bloom", ENGINE, rp2, dict(sig, channel=o[2]))
+            t.check(bytes(f) == bytes_before, "C05", "C05.reexport.bloom", ENGINE, rp2, dict(sig, channel=o[2]))
         if o[0] == "clear":
             fresh = self.new("disk" if f.is_on_disk else "mem", hf)
             same = bytes(f) == bytes(fresh) and self.observe(f) == self.observe(fresh)
@@ -459,7 +492,8 @@ class Ctx:
 
 def profiles(tier, seed, light=False):
     P = []
-    base = dict(keys=["a", "b", "c"], amts=[1], whos=["A", "B"], counting=False, cellmax=2, totmax=1000, maxn=2, maxdepth=4)
+    base = dict(keys=["a", "b", "c"], amts=[1], whos=["A", "B"], counting=False, cellmax=2, totmax=1000, maxn=2, maxdepth=4,
+                channels=["bytes", "hex", "file"])
     if tier == "quick":
         P.append(dict(base, M=3, K=2, H=5, ntables=10, kinds=("mem", "mem")))
         P.append(dict(base, M=7, K=5, H=9, ntables=6, kinds=("mem", "disk"), maxdepth=3))
@@ -511,6 +545,21 @@ def run(focus, tier, seed):
             mod = mc_module(p, tabs[i:i + chunk])
             pp = {k: v for k, v in p.items() if k != "tables"}
             jobs.append(dict(module=mod, cfg=cfg(p, "both"), workers=1, timeout=3000, params=pp, tag=("mc", const)))
+    # deeper histories: TLC simulation schedules over the same spec and tables
+    nsim = 0
+    for p in profiles(tier, seed, focus in ("C05", "C14", "C19")):
+        if focus in FOCUS_FILTER and not FOCUS_FILTER[focus](p):
+            continue
+        if p.get("exhaustive"):
+            continue
+        ps = dict(p, maxdepth=14, maxn=5, maxreloads=2)
+        const = {k: v for k, v in ps.items() if k != "tables"}
+        const.update(tables=len(ps["tables"]), mode="simulate")
+        pp = {k: v for k, v in ps.items() if k != "tables"}
+        jobs.append(dict(module=mc_module(ps, ps["tables"]), cfg=cfg(ps, "both"), workers=1, timeout=3000, params=pp, tag=("mc", const),
+                         simulate=(40 if tier == "quick" else 500), depth=14, seed=seed + 31 + nsim))
+        nsim += 1
+    total.exhaustive = False
     t, rs = s2c.run_s2c(MOD, focus, jobs, tlc_parallel=10)
     total.merge(t)
     agg = {}
@@ -519,7 +568,7 @@ def run(focus, tier, seed):
     for job, r in zip(jobs, rs):
         kind, const = job["tag"]
         total.extra["emitted"] = total.extra.get("emitted", 0) + r.emitted
-        a = agg.setdefault(repr(const), {"spec": "BloomFamily", "constants": const, "mode": "exhaustive+emit", "generated": 0, "distinct": 0, "depth": 0, "wall_s": 0, "ok": True})
+        a = agg.setdefault(repr(const), {"spec": "BloomFamily", "constants": const, "mode": const.get("mode", "exhaustive+emit"), "generated": 0, "distinct": 0, "depth": 0, "wall_s": 0, "ok": True})
         a["generated"] += r.generated
         a["distinct"] += r.distinct
         a["depth"] = max(a["depth"], r.depth)
